@@ -7,6 +7,10 @@
 (*     const k = { v: 1 } as const                    (a value)            *)
 (*     type T = { a: A; b: B; k: typeof k; g: G<B> }  (the root, in entry) *)
 (*     type G<X> = { x: X }                           (generic)            *)
+(*     enum E { P = "p", Q = "q" }      used only as the member type E.P   *)
+(*     enum E2 { P = "fp", R = "r" }    used only as E2.P; in a file other *)
+(*         than entry and E's file it is DECLARED under the name E (two    *)
+(*         same-named enums in two files, imported as { E as E2 })         *)
 (* A state (layout) says in which file each declaration lives, how it is   *)
 (* exported, and how each use site reaches it.  Actions change one aspect. *)
 (* Every well-formed layout must compile to validators identical to the    *)
@@ -17,9 +21,9 @@ EXTENDS Naturals, Sequences, FiniteSets, TLC
 
 CONSTANTS MaxSteps
 
-Decls == {"A", "B", "k", "G"}
+Decls == {"A", "B", "k", "G", "E", "E2"}
 Files == {"entry", "m1", "m2"}
-Sites == {<<"T", "A">>, <<"T", "B">>, <<"T", "k">>, <<"T", "G">>, <<"A", "B">>}     \* <<user, used>>
+Sites == {<<"T", "A">>, <<"T", "B">>, <<"T", "k">>, <<"T", "G">>, <<"A", "B">>, <<"T", "E">>, <<"T", "E2">>}     \* <<user, used>>
 ExportStyles == {"inline", "list", "renamed", "default"}
 ImportStyles == {"named", "renamedImport", "namespace", "typeonly", "importtype", "hopnamed", "hopstar", "hopns"}
 Kinds == {"ts", "dts", "tsx"}
@@ -45,6 +49,13 @@ WellFormed(pl, ex, im, kd, dc) ==
          /\ (ex[d] = "default" => im[s] \in {"named", "renamedImport", "typeonly"})
          \* `import type` cannot be used for the value k's initialiser, but `typeof k` in a type position is fine
          /\ TRUE
+  \* E2 declared as E in its own file: the hop file must not receive the name E from both files (duplicate / ambiguous export)
+  /\ LET twin == pl["E2"] \notin {"entry", pl["E"]}
+         cross(t) == (IF t[1] = "T" THEN "entry" ELSE pl[t[1]]) # pl[t[2]]
+         starFiles == {pl[t[2]] : t \in {t \in Sites : cross(t) /\ im[t] = "hopstar"}}
+         plain(d) == cross(<<"T", d>>) /\ im[<<"T", d>>] \in {"hopnamed", "hopstar"}
+         feeds(d) == plain(d) \/ pl[d] \in starFiles
+     IN (twin /\ (plain("E") \/ plain("E2"))) => ~(feeds("E") /\ feeds("E2"))
   \* the entry file is always a .ts file; a .d.ts file cannot hold a const with an initialiser: k is declared there instead
   /\ kd["entry"] = "ts"
   \* the decoy `type B = number` lives in a file where the name B is neither declared nor bound by an import
@@ -90,5 +101,7 @@ Spec == Init /\ [][Next]_vars
 \* resolves each site to the declaration of the base program; a decoy is never imported.
 Resolves(s) == IF broken = s THEN "unresolved" ELSE s[2]
 AllResolve == \A s \in Sites : broken # s => Resolves(s) = s[2]
+\* the name under which E2 is declared in its file
+DeclaredName(d) == IF d = "E2" /\ place["E2"] \notin {"entry", place["E"]} THEN "E" ELSE d
 ExpectedOutcome == IF broken = NoSite THEN "same-as-single-file" ELSE "diagnostic"
 =============================================================================
